@@ -24,6 +24,13 @@ func c06Cfg() *DeclCfg {
 func c06Run(c *Ctx) {
 	r := c.R
 	d := GenDecl(c.Sub("d"), c06Cfg())
+	if c.K%13 == 9 {
+		// a required option registered after the parser was first used is enforced as well
+		hc := c06Cfg()
+		hc.PPosReq = 0 // (positional requirements are not state-free on a re-used parser, see hist.go)
+		histCase(c, GenDecl(c.Sub("dh"), hc), []string{"late-required-group", "late-required-in-group", "late-required-in-group"}, []string{"parse"})
+		return
+	}
 	var target *Cmd
 	if len(d.Cmds) > 1 && r.Chance(3, 4) {
 		target = d.Cmds[r.Intn(len(d.Cmds))]
